@@ -17,6 +17,7 @@ import (
 	"time"
 
 	"github.com/titpetric/vuego"
+	"golang.org/x/net/html"
 )
 
 // C09: one engine, many goroutines.
@@ -72,12 +73,27 @@ type concInfo struct {
 	dir  bool
 }
 
-func (i concInfo) Name() string       { return filepath.Base(i.name) }
-func (i concInfo) Size() int64        { if i.f == nil { return 0 }; return int64(len(i.f.data)) }
-func (i concInfo) Mode() fs.FileMode  { if i.dir { return fs.ModeDir | 0o555 }; return 0o444 }
-func (i concInfo) ModTime() time.Time { if i.f == nil { return time.Time{} }; return i.f.mod }
-func (i concInfo) IsDir() bool        { return i.dir }
-func (i concInfo) Sys() any           { return nil }
+func (i concInfo) Name() string { return filepath.Base(i.name) }
+func (i concInfo) Size() int64 {
+	if i.f == nil {
+		return 0
+	}
+	return int64(len(i.f.data))
+}
+func (i concInfo) Mode() fs.FileMode {
+	if i.dir {
+		return fs.ModeDir | 0o555
+	}
+	return 0o444
+}
+func (i concInfo) ModTime() time.Time {
+	if i.f == nil {
+		return time.Time{}
+	}
+	return i.f.mod
+}
+func (i concInfo) IsDir() bool { return i.dir }
+func (i concInfo) Sys() any    { return nil }
 
 type concOpen struct {
 	info concInfo
@@ -292,9 +308,32 @@ type c09Engine struct {
 	vue  *vuego.Vue
 }
 
+// a node processor with per-render state (it numbers the headings of one render): the engine must give every
+// render an instance of its own (NodeProcessor.New)
+type c09Numberer struct{ n int }
+
+func (p *c09Numberer) New() vuego.NodeProcessor            { return &c09Numberer{} }
+func (p *c09Numberer) PreProcess(nodes []*html.Node) error { return nil }
+func (p *c09Numberer) PostProcess(nodes []*html.Node) error {
+	var walk func(n *html.Node)
+	walk = func(n *html.Node) {
+		if n.Type == html.ElementNode && (n.Data == "h1" || n.Data == "h3" || n.Data == "li") {
+			p.n++
+			n.Attr = append(n.Attr, html.Attribute{Key: "data-seq", Val: fmt.Sprint(p.n)})
+		}
+		for c := n.FirstChild; c != nil; c = c.NextSibling {
+			walk(c)
+		}
+	}
+	for _, n := range nodes {
+		walk(n)
+	}
+	return nil
+}
+
 func c09NewEngine(fsys *concFS, shared map[string]any) *c09Engine {
-	base := vuego.NewFS(fsys, vuego.WithFuncs(c09Funcs())).Fill(shared)
-	return &c09Engine{fsys: fsys, base: base, vue: vuego.NewVue(fsys).Funcs(c09Funcs())}
+	base := vuego.NewFS(fsys, vuego.WithFuncs(c09Funcs()), vuego.WithProcessor(&c09Numberer{})).Fill(shared)
+	return &c09Engine{fsys: fsys, base: base, vue: vuego.NewVue(fsys).Funcs(c09Funcs()).RegisterNodeProcessor(&c09Numberer{})}
 }
 
 type c09Res struct {
@@ -645,7 +684,9 @@ func c09History(r *Run, h int) {
 	fsys := newConcFS()
 	ver := []int{0, 0}
 	name := func(k int) string { return fmt.Sprintf("f%d.vuego", k) }
-	put := func(k int) { fsys.Put(name(k), fmt.Sprintf("<p>K%dV%d</p>", k, ver[k]), c09T0.Add(time.Duration(ver[k]+1)*time.Second)) }
+	put := func(k int) {
+		fsys.Put(name(k), fmt.Sprintf("<p>K%dV%d</p>", k, ver[k]), c09T0.Add(time.Duration(ver[k]+1)*time.Second))
+	}
 	put(0)
 	put(1)
 	vue := vuego.NewVue(fsys)
